@@ -41,7 +41,7 @@ def main(argv):
     def run_case(cls, labels, nphys, instrs, meas, psi0):
         # 1..3 sequential shots: the noise-free shot is deterministic, so the mean over shots is the single shot
         # every fourth circuit keeps its qubits in two quantum registers and its classical bits in two classical registers
-        split = (1 + len(instrs) % max(1, nphys - 1), 1) if (nphys >= 2 and len(instrs) % 4 == 1) else None
+        split = (1 + len(instrs) % max(1, nphys - 1), 1) if (nphys >= 2 and len(instrs) % 4 == 1) else ("reversed" if (nphys >= 2 and len(instrs) % 4 == 3) else None)
         log, res, psi = sc.run_spy(cls, labels, instrs, nphys, sc.dev_plain(nphys), psi0, gates=noise_free_gates, shots=1 + len(instrs) % 3, split=split)
         ideal = sc.qiskit_marginals(labels, instrs, meas, psi0)
         if set(res) != set(ideal): return "outcome keys differ from the 2^m strings of the measured qubits"
